@@ -16,7 +16,9 @@ Inductive mop :=
 | OResume
 | OTeardown
 | ODestroy
-| OSetup (use_altscreen : bool).   (* tickit.c setupterm: the fixed settings, then clear *)
+| OSetup (use_altscreen : bool)    (* tickit.c setupterm: the fixed settings, then clear *)
+| OReport (mode value : Z)        (* the terminal's DECRPM reply to a start-up query is read: on_modereport *)
+| ODecscusr (value : Z).          (* ... its DECRQSS reply for DECSCUSR: on_decrqss *)
 
 (* setupterm's controls through the driver *)
 Fixpoint setup_run (d : xdrv) (cvs : list (ctl * Z)) : xdrv * list token :=
@@ -50,6 +52,8 @@ Definition mode_step (t : term) (o : mop) : option (term * list token * option Z
   | ODestroy => Some (fst (term_teardown t), term_destroy t, None)
   | OSetup alt => let '(d', ts) := setup_run (t_drv t) (setup_controls alt) in
                   Some (term_with_drv t d', ts ++ xt_clear, None)
+  | OReport mode value => Some (term_with_drv t (xt_on_modereport (t_drv t) mode value), [], None)
+  | ODecscusr value => Some (term_with_drv t (xt_on_decscusr (t_drv t) value), [], None)
   end.
 
 Fixpoint mode_run (t : term) (os : list mop) : option (term * list token) :=
@@ -167,6 +171,29 @@ Definition check_op_v (kp : bool) (colon rgb8 cshape : bool) (init : mstate) (s 
   | OTeardown | ODestroy =>
       if eq (ms_of_vt v') init && attrs_eqb (v_sgr v') default_attrs
       then (Some (mkOs v' (os_last s) (os_pen s) (os_paused s) true), 0%nat) else (None, 6%nat)
+  | OReport mode value =>
+      (* a reply tells the state at the time of the start-up query: the cursor was visible (power-on
+         state); the blink state is the terminal's unless the application has set it since.
+         Reading a reply writes nothing and changes nothing the application asked for *)
+      let truthful :=
+          if mode =? 25 then value =? 1
+          else if mode =? 12 then
+            match os_last s CtlCursorblink with
+            | Some _ => (value =? 1) || (value =? 2)
+            | None => ((value =? 1) && md_blink (v_md (os_vt s))) || ((value =? 2) && negb (md_blink (v_md (os_vt s))))
+            end
+          else true in
+      if negb truthful then (None, 0%nat)
+      else if silent then (Some s, 0%nat) else (None, 8%nat)
+  | ODecscusr value =>
+      let truthful :=
+          (0 <=? value) && (value <=? 6) &&
+          match os_last s CtlCursorshape with
+          | Some _ => true
+          | None => md_shape (v_md (os_vt s)) =? value
+          end in
+      if negb truthful then (None, 0%nat)
+      else if silent then (Some s, 0%nat) else (None, 8%nat)
   | OSetup alt =>
       let l' := fold_left (fun l cv => ls_set l (fst cv) (ctl_norm (fst cv) (snd cv))) (setup_controls alt) (os_last s) in
       if (os_paused s || eq (ms_of_vt v') (logical_ms init l')) && attrs_eqb (v_sgr v') (v_sgr (os_vt s))
